@@ -9,7 +9,7 @@
   construction (every model function is a total Lean function). `struct` / `gram`
   (`Spec/IdGrammar.lean`) are the required structure and the recommended grammar.
 -/
-import RumaModel.Lemmas.IdsIp
+import RumaModel.Lemmas.IdsIff
 namespace Ruma.Props.C10
 open Ruma Ruma.Ids Ruma.Spec.IdGrammar
 
@@ -715,6 +715,84 @@ example : validate ⟨ipv6Ref, ipv4Ref, fun _ => false⟩ .server
       = [91, 50, 48, 48, 49, 58, 100, 98, 56, 58, 58, 49, 93, 58, 56, 52, 52, 56] := by decide
   rw [e]; decide +kernel
 
+/-! ## Required structure ⇒ accepted (the structure predicate is tight) -/
+
+/-- Converse of `accept_implies_structure`: with an IPv6 parser that accepts no more than the
+reference, every string with the required structure of a user, room, alias, room-or-alias, event ID,
+server name, device key ID, MXC URI, room version or session ID is accepted, unless its server name
+carries a port above 65535 (`structBigPort`, the known finding). So for these types the parser
+accepts exactly the required structure: nothing the specification's structure allows is refused for
+another reason. -/
+theorem structure_implies_accept (x : Ext) (hx : ∀ c, x.isIpv6 c = true → ipv6Ref c = true)
+    (k : Kind)
+    (hk : k ∈ [Kind.user, .room, .alias, .roomOrAlias, .event, .server, .keyAny, .mxc,
+      .roomVersion, .sessionId])
+    (s : Str) (h : utf8Valid s = true) (hst : struct x.isIpv6 k s = true)
+    (hp : structBigPort x.isIpv6 k s = false) : validate x k s = .ok () := by
+  have hs := sep_of_utf8Valid s h
+  simp only [List.mem_cons, List.not_mem_nil, or_false] at hk
+  rcases hk with rfl | rfl | rfl | rfl | rfl | rfl | rfl | rfl | rfl | rfl <;>
+    simp only [struct] at hst <;> simp only [structBigPort] at hp <;> simp only [validate]
+  · exact struct_user_accept hx hs (by omega) (by omega) hst hp
+  · exact struct_room_accept hst
+  · exact struct_user_accept hx hs (by omega) (by omega) hst hp
+  · rw [Bool.or_eq_true] at hst
+    unfold roomOrAliasIdValidate
+    rcases hst with hr | ha
+    · have hv := struct_room_accept hr
+      obtain ⟨_, hh, _⟩ := roomIdValidate_ok_iff.1 hv
+      rw [hh]; exact hv
+    · have hv : roomAliasIdValidate x s = .ok () :=
+        struct_user_accept hx hs (by omega) (by omega) ha hp
+      obtain ⟨lp, srv, ⟨rfl, _⟩, _⟩ := (delimitedValidate_ok_iff hs (by omega) (by omega)).1 hv
+      exact hv
+  · exact struct_event_accept hx hs hst hp
+  · exact (serverNameValidate_ok_iff hs).2 (serverOk_of_struct hx hst hp)
+  · exact struct_keyAny_accept hs hst
+  · exact struct_mxc_accept hx hs hst hp
+  · exact struct_roomVersion_accept hst
+  · exact struct_sessionId_accept hst
+
+/-- The same for the types whose validators ask Unicode `char::is_alphanumeric` (signing key
+versions, base64 public keys, client secrets, and key IDs with such key names), on ASCII strings,
+where that question is never asked. -/
+theorem structure_implies_accept_ascii (x : Ext) (k : Kind)
+    (hk : k ∈ [Kind.signingKeyVersion, .base64PublicKey, .clientSecret, .keyVersion, .keyBase64])
+    (s : Str) (hascii : ∀ b ∈ s, b < 128) (h : utf8Valid s = true)
+    (hst : struct x.isIpv6 k s = true) : validate x k s = .ok () := by
+  have hs := sep_of_utf8Valid s h
+  simp only [List.mem_cons, List.not_mem_nil, or_false] at hk
+  rcases hk with rfl | rfl | rfl | rfl | rfl <;> simp only [struct] at hst <;> simp only [validate]
+  · exact struct_signingKeyVersion_accept hascii hst
+  · exact struct_base64PublicKey_accept hascii hst
+  · exact struct_clientSecret_accept hascii hst
+  · exact struct_key_accept hs hascii (fun n hn hok => struct_signingKeyVersion_accept hn hok) hst
+  · exact struct_key_accept hs hascii (fun n hn hok => struct_base64PublicKey_accept hn hok) hst
+
+/-- For the types without a server-name component, and for server names themselves, acceptance and
+required structure coincide exactly (server names: up to the port finding). -/
+theorem accept_iff_structure (x : Ext) (hx : ∀ c, x.isIpv6 c = true → ipv6Ref c = true) (k : Kind)
+    (hk : k ∈ [Kind.room, .server, .keyAny, .roomVersion, .sessionId])
+    (s : Str) (h : utf8Valid s = true) :
+    validate x k s = .ok () ↔
+      (struct x.isIpv6 k s = true ∧ structBigPort x.isIpv6 k s = false) := by
+  constructor
+  · intro hv
+    refine ⟨accept_implies_structure x k s h hv, ?_⟩
+    simp only [List.mem_cons, List.not_mem_nil, or_false] at hk
+    rcases hk with rfl | rfl | rfl | rfl | rfl <;> simp only [structBigPort]
+    exact serverOk_not_bigPort ((serverNameValidate_ok_iff (sep_of_utf8Valid s h)).1 hv)
+  · rintro ⟨hst, hp⟩
+    refine structure_implies_accept x hx k ?_ s h hst hp
+    simp only [List.mem_cons, List.not_mem_nil, or_false] at hk ⊢
+    rcases hk with rfl | rfl | rfl | rfl | rfl <;> simp
+
+-- the hypotheses are satisfiable: "@a:[::1]:80" has the required structure and no big port
+example : struct ipv6Ref .user (bs "@a:[::1]:80") = true
+    ∧ structBigPort ipv6Ref .user (bs "@a:[::1]:80") = false := by
+  have e : bs "@a:[::1]:80" = [64, 97, 58, 91, 58, 58, 49, 93, 58, 56, 48] := by decide
+  rw [e]; decide +kernel
+
 #print axioms validate_never_panics
 #print axioms validate_strict_never_panics
 #print axioms accessors_recompose_delimited
@@ -740,4 +818,7 @@ example : validate ⟨ipv6Ref, ipv4Ref, fun _ => false⟩ .server
 #print axioms ipv6_reference_in_spec_grammar
 #print axioms server_accept_iff_grammar
 #print axioms accepted_server_has_no_nul
+#print axioms structure_implies_accept
+#print axioms structure_implies_accept_ascii
+#print axioms accept_iff_structure
 end Ruma.Props.C10
